@@ -195,7 +195,8 @@ def run(ctx):
     from vlib.pairwise import sized_enum
     sysi = [r for r in sysm if "integer" in json.dumps(r) and not sized_enum(r)]
     cases += build_cases(ctx, len(sysi), None, CLASSES | {"null-not-allowed"}, "c03m", extra_schemas=sysi, docs_per=2, minsized=True, fam="min-sized")
-    nc = nullable_composites() + huge_bound_cases() + other_keyword_cases()
+    from vlib.lookalike import lookalike_cases
+    nc = nullable_composites() + huge_bound_cases() + other_keyword_cases() + lookalike_cases("c03", "type")
     run_cases(ctx, cases + nc, "c03")
     evaluate(ctx, cases, CLASSES, {"type": "invalid", "null-allowed": "valid", "valid": "valid"}, "JSON types")
     nnc = 0
@@ -211,7 +212,7 @@ def run(ctx):
             ctx.count({"f": c.fam, "d": d["doc"]}, d["cls"] == "type", c.fam.split("/")[0])
             if o.get("v") != d["expect"] and nnc < 3:
                 ctx.violation("oracle", c.replay_obj(di), "%s: document %s is %s under the schema but the generated code answers %s" % (
-                    c.fam, json.dumps(d["doc"]), "valid" if d["expect"] == "ACC" else "invalid (a value of another JSON type at %s)" % "/".join(d["path"]), o.get("v")))
+                    c.fam, json.dumps(d["doc"]), "valid" if d["expect"] == "ACC" else "invalid (a value of another JSON type at %s)" % "/".join(map(str, d["path"])), o.get("v")))
                 nnc += 1
                 break
     from vlib.valuecheck import report_tie
